@@ -515,7 +515,8 @@ def parse_accessors(src, tables):
             fields.append((name, "raw", fs[0][2], fs[0][3]))
         elif fn == "schema_version":
             byvar = {f[1]: f for f in fs}
-            if body != "let major = (self.0 >> 24_i32) & 0xff; let minor = (self.0 >> 16_i32) & 0xff; semver::Version::new(u64::from(major), u64::from(minor), 0)".replace("0xff", hex(byvar.get("major", (0, 0, 0, 0))[3] or 0)) and not re.search(r"semver::Version::new\(u64::from\(major\), u64::from\(minor\), 0\)$", body):
+            if not re.fullmatch(r"let major = \(self\.0 >> \d+_i32\) & \w+; let minor = \(self\.0 >> \d+_i32\) & \w+; "
+                                r"semver::Version::new\(u64::from\(major\), u64::from\(minor\), 0\)", body):
                 refuse(f"{name}: body not understood: `{body[:200]}`")
             for role in ("major", "minor"):
                 if role not in byvar:
